@@ -652,6 +652,42 @@ func runC13(seed int64, tier string, sc *Script) map[string]any {
 		evals += 2
 		reg.Close()
 	}
+	// a cross-repository mount that the registry answers with 201 Created: a Docker-Content-Digest
+	// header naming other content (or no digest at all) means something else was mounted
+	for _, hdr := range []string{"none", "same", "other", "invalid", "empty"} {
+		sc.Case("mount-created-digest")
+		sc.NonTrivial()
+		reg := newFakeRegistry(regProfile{DigestHeaders: true, Mount: true})
+		src, _ := remote.NewRepository(reg.Host() + "/c/d")
+		src.PlainHTTP = true
+		dstR, _ := remote.NewRepository(reg.Host() + "/a/b")
+		dstR.PlainHTTP = true
+		data := []byte("mounted-blob-" + hdr)
+		bd := ocispec.Descriptor{MediaType: "application/octet-stream", Digest: digest.FromBytes(data), Size: int64(len(data))}
+		if err := src.Push(ctx, bd, bytes.NewReader(data)); err != nil {
+			panic(err)
+		}
+		reg.mu.Lock()
+		switch hdr {
+		case "same":
+			reg.mutate = &respMutation{"dcd", bd.Digest.String()}
+		case "other":
+			reg.mutate = &respMutation{"dcd", digest.FromString("something else").String()}
+		case "invalid":
+			reg.mutate = &respMutation{"dcd", "sha256:zz"}
+		case "empty":
+			reg.mutate = &respMutation{"dcd", ""}
+		}
+		reg.mu.Unlock()
+		err := dstR.Mount(ctx, bd, "c/d", nil)
+		ans := "ok"
+		if err != nil {
+			ans = "err"
+		}
+		sc.Op(ans, "rm mountdcd header=%s", hdr)
+		evals++
+		reg.Close()
+	}
 	// tags at the length limit: 128 characters are a tag, 129 are not - the call is refused
 	// before anything is sent, in every operation that takes a reference
 	for _, n := range []int{127, 128, 129, 130, 200} {
